@@ -173,6 +173,7 @@ type SQLStmt struct {
 }
 
 type SQLColDef struct {
+	Collate string
 	Name    string
 	Type    string
 	Unique  bool
@@ -356,6 +357,8 @@ func (p *sqlParser) create() *SQLStmt {
 					cd.Default = &v
 				case p.acceptKw("not"):
 					p.expectKw("null")
+				case p.acceptKw("collate"):
+					cd.Collate = strings.ToUpper(p.ident())
 				default:
 					panic(fmt.Errorf("sql: unsupported column constraint %q", p.peek().text))
 				}
